@@ -284,6 +284,25 @@ def check_convert(case, ctx):
         ctx.check(build.snapshot(b)["pts"] == build.snapshot(obj)["pts"] and build.kvs_of(b) == build.kvs_of(obj) and build.degrees_of(b) == build.degrees_of(obj),
                   "round-trip-differs", "conversion round trip changed the definition")
         shape.same_shape(ctx, R, b, lat, "round-trip-evaluates-differently", "nurbs_to_bspline(bspline_to_nurbs(x))")
+        # the converted shape is a shape of its own: editing it (points, then a knot vector) leaves the source as it was, and
+        # the source goes on working (its next edit re-samples it correctly)
+        src = build.snapshot(obj)
+        n.ctrlpts = [[c * 2.0 + 1.0 for c in q] for q in d["P"]]
+        sfx = [""] if d["kind"] == "curve" else ["_u", "_v", "_w"][:len(d["degree"])]
+        k_ = len(d["P"]) % len(sfx)
+        kvn = list(build.kvs_of(n)[k_])
+        p_, n_ = d["degree"][k_], d["size"][k_]
+        if n_ > p_ + 1:
+            kvn[p_ + 1] = (kvn[p_] + kvn[p_ + 1]) / 2.0          # move the first interior knot of the converted shape
+            setattr(n, "knotvector" + sfx[k_], kvn)
+        ctx.check(build.snapshot(obj) == src and build.sizes_of(obj) == d["size"], "conversion-result-not-independent",
+                  "editing the result of bspline_to_nurbs changed the source: sizes %r, definition equal %r" % (build.sizes_of(obj), build.snapshot(obj) == src))
+        shape.same_shape(ctx, R, obj, lat, "conversion-result-not-independent", "source after its converted twin was edited")
+        d2 = dict(d)
+        d2["P"] = [[c - 3.0 for c in q] for q in d["P"]]
+        obj.ctrlpts = [list(q) for q in d2["P"]]
+        ctx.check(build.sizes_of(obj) == d["size"], "conversion-damaged-source", "after a conversion and one edit the source reports sizes %r" % build.sizes_of(obj))
+        shape.same_shape(ctx, build.exact_from(d2, obj), obj, lat, "conversion-damaged-source", "source edited after it was converted")
         return
     ctx.nt(build.varied_weights(d), "varied-weights")
     ctx.nt(not build.varied_weights(d), "convertible-unit-or-constant")
